@@ -81,10 +81,10 @@ theorem push_strict {s s' : St} {io io' : Io} (hst : s.streamState ≠ .flushReq
          have := hpush.1; have := hpush.2
          omega)
 
-theorem mdStep_decreases {o : Oracle} {n B M : Nat} {s s' : St} {io io' : Io} (hP : MdInv n s io)
-    (hB : OracleBounded o B) (hM : (14 + 176 + B) / 8 ≤ M) (hl : s.lastBytesBits ≤ 14)
+theorem mdStep_decreases {o : Oracle} {n M : Nat} {s s' : St} {io io' : Io} (hP : MdInv n s io)
+    (hl : s.lastBytesBits ≤ 14)
     (h : processMetadataStep o s io = .ok (s', io', .cont)) :
-    mdPot M s' < mdPot M s ∧ s'.lastBytesBits ≤ 14 := by
+    (MCap M s → mdPot M s' < mdPot M s ∧ MCap M s') ∧ s'.lastBytesBits ≤ 14 := by
   have hI := hP.inv
   have hnf : s.streamState ≠ .finished := by rcases hP.st with h1 | h1 <;> rw [h1] <;> simp
   have hnfl : s.streamState ≠ .flushRequested := by rcases hP.st with h1 | h1 <;> rw [h1] <;> simp
@@ -95,11 +95,13 @@ theorem mdStep_decreases {o : Oracle} {n B M : Nat} {s s' : St} {io io' : Io} (h
   · rename_i s1 io1 hp
     simp only [Out.ok.injEq, Prod.mk.injEq] at h
     obtain ⟨rfl, rfl, _⟩ := h
-    obtain ⟨f, a1, _, _, _, _, _, _, _, _⟩ := push_frame hp
+    obtain ⟨f, a1, _, _, a5, _, _, _, _, _⟩ := push_frame hp
     rw [St.frame_eq_iff] at f
     have hlt := push_strict hnfl hp
     have hlb := (push_conserve hnfl hp).2.2.2.2.1
     refine ⟨?_, by rw [hlb]; exact hl⟩
+    intro hC
+    refine ⟨?_, by unfold MCap at hC ⊢; rw [a5, f.2.1, a1]; exact hC⟩
     unfold mdPot
     rw [f.2.1, a1, f.2.2.2.1, f.2.2.1]
     omega
@@ -125,17 +127,22 @@ theorem mdStep_decreases {o : Oracle} {n B M : Nat} {s s' : St} {io io' : Io} (h
           obtain ⟨f, _, _, _, _⟩ := encodeData_frame henc
           rw [St.frame_eq_iff] at f
           have hlf := encodeData_forced henc (Or.inr rfl) hI.fl_le hI.lp_le hI.ip_lt hI.q01
-          have hpl := encodeData_pending_le hB henc
+          have hsto := encodeData_store henc hI.fl_le hI.lp_le hI.ip_lt
           have hlbb : s2.lastBytesBits ≤ 14 := by
             rcases encodeData_lbb henc with h8 | h8
             · omega
             · rw [h8]; exact hl
           refine ⟨?_, hlbb⟩
+          intro hC
+          obtain ⟨q1, q2⟩ := hC
+          obtain ⟨t1, t2, t3, t4⟩ := hsto
+          have hs2M : s2.storageSize ≤ M := Nat.le_trans t2 (Nat.max_le.mpr ⟨q1, q2⟩)
+          refine ⟨?_, ⟨hs2M, by rw [t4]; omega⟩⟩
           unfold mdPot
           rw [f.2.1, hlf, f.2.2.2.1, f.2.2.1]
           simp only [ne_eq, not_true_eq_false, ↓reduceIte, Nat.zero_mul, Nat.zero_add]
           rw [if_pos hne, Nat.one_mul, hp0]
-          have : s2.pending.length ≤ M := Nat.le_trans hpl (Nat.le_trans (Nat.div_le_div_right (by omega)) hM)
+          have : s2.pending.length ≤ M := by omega
           omega
       · rename_i heq
         have hlfe : s.inputPos = s.lastFlushPos := by
@@ -151,6 +158,8 @@ theorem mdStep_decreases {o : Oracle} {n B M : Nat} {s s' : St} {io io' : Io} (h
           · simp only [Out.ok.injEq, Prod.mk.injEq] at h
             obtain ⟨rfl, rfl, _⟩ := h
             refine ⟨?_, by simp⟩
+            intro hC
+            refine ⟨?_, hC⟩
             unfold mdPot
             simp only [hhead, ↓reduceIte, reduceCtorEq]
             have h1 := metadataHeaderBits_length_le s.remainingMetadata hP.rmLe (bitsOf s.lastBytesBits s.lastBytes)
@@ -175,6 +184,8 @@ theorem mdStep_decreases {o : Oracle} {n B M : Nat} {s s' : St} {io io' : Io} (h
                 have e1 : (s.remainingMetadata + two32 - min s.remainingMetadata io.availOut % two32) % two32 = s.remainingMetadata - min s.remainingMetadata io.availOut := by
                   rw [hcopy]; exact sub_mod_two32 (Nat.min_le_left _ _) hrm32
                 refine ⟨?_, hl⟩
+                intro hC
+                refine ⟨?_, hC⟩
                 unfold mdPot
                 simp only [e1, hnhead, ↓reduceIte]
                 have : 1 ≤ min s.remainingMetadata io.availOut := by omega
@@ -188,6 +199,8 @@ theorem mdStep_decreases {o : Oracle} {n B M : Nat} {s s' : St} {io io' : Io} (h
                 have e1 : (s.remainingMetadata + two32 - min s.remainingMetadata 16) % two32 = s.remainingMetadata - min s.remainingMetadata 16 :=
                   sub_mod_two32 (Nat.min_le_left _ _) hrm32
                 refine ⟨?_, hl⟩
+                intro hC
+                refine ⟨?_, hC⟩
                 unfold mdPot
                 simp only [e1, hnhead, ↓reduceIte, List.length_take]
                 have : 1 ≤ min s.remainingMetadata 16 := by omega
@@ -195,14 +208,14 @@ theorem mdStep_decreases {o : Oracle} {n B M : Nat} {s s' : St} {io io' : Io} (h
                 rw [hp0]
                 omega
 
-theorem mdLoop_terminates {o : Oracle} {n B M : Nat} (hB : OracleBounded o B) (hM : (14 + 176 + B) / 8 ≤ M) :
-    ∀ fuel s io, MdInv n s io → s.lastBytesBits ≤ 14 → mdPot M s < fuel →
+theorem mdLoop_terminates {o : Oracle} {n M : Nat} :
+    ∀ fuel s io, MdInv n s io → s.lastBytesBits ≤ 14 → MCap M s → mdPot M s < fuel →
       processMetadataLoop o fuel s io ≠ .fuel := by
   intro fuel
   induction fuel with
-  | zero => intro s io _ _ h; omega
+  | zero => intro s io _ _ _ h; omega
   | succ k ih =>
-    intro s io hP hl hpot
+    intro s io hP hl hC hpot
     unfold processMetadataLoop
     have hnf := mdStep_ne_fuel o s io
     split
@@ -210,9 +223,10 @@ theorem mdLoop_terminates {o : Oracle} {n B M : Nat} (hB : OracleBounded o B) (h
     · rename_i hh; exact absurd hh hnf
     · simp
     · rename_i s1 io1 hs
-      obtain ⟨d1, d2⟩ := mdStep_decreases hP hB hM hl hs
+      obtain ⟨d1, d2⟩ := mdStep_decreases (M := M) hP hl hs
+      obtain ⟨d3, d4⟩ := d1 hC
       rcases (mdStep_spec hP hs).2 with h1 | ⟨h1, _⟩
-      · exact ih s1 io1 h1 d2 (by omega)
+      · exact ih s1 io1 h1 d2 d4 (by omega)
       · cases h1
     · simp
 
